@@ -283,6 +283,7 @@ def run_for(prop, ctx=None):
 
 def main(argv):
     import sys
+    os.environ["NQSA_SELFTEST"] = "1"  # (the long runs of C14.X use the shortest length that still exceeds the register file)
 
     props = argv or ["C%02d" % i for i in range(1, 21)]
     bad = 0
